@@ -125,10 +125,6 @@ func (g *Gen) monitorCall(st *State, c *ssa.CallCommon, static *ssa.Function) bo
 			g.lockAcquire(st, ls)
 			return true
 		}
-	case "(*sync.Cond).Broadcast", "(*sync.Cond).Signal":
-		if ls := g.lockOf(st, c.Args[0], true); ls != nil {
-			return true // no effect on modelled state
-		}
 	}
 	return false
 }
